@@ -15,6 +15,10 @@ QUEUED = ["H\tTS:i:100", "# c1", "L\tA\t+\tB\t-\t*", "P\tp\tA+,B-\t*", "C\tA\t+\
 BAD_DECIDERS = ["H\tVN:Z:1.0\tTS:i:200", "H\tVN:Z:2.0\tTS:i:300", "H\tVN:Z:3.0", "E\t*\tgarbage", "S\tA", "S\tA\tB\tC\tD", "E\t*\tA+\tB-\t5\t1\t0\t1\t*", "G\t*\tA+\tB\t1\t*",
                 "F\tA\tr\t0\t1\t0\t1\t*", "O\t*\t", "U\tu", "S\tA\t*\tLN:Z:x", "S\tA\t1x\t*", "H\tVN:Z:", "H\tVN:i:1",
                 "E\t*\tA+\tB-\t$\t1\t0\t1\t*", "S\tA\t*\txx:i:1\txx:i:2"]
+# a header whose later tag cannot be read (at level 0 the tags are read when they are merged), and line
+# objects which belong to another Gfa already ("@foreign:" + text)
+BAD_DECIDERS += ["H\tyy:Z:ok\tzz:J:{bad", "H\tab:i:1\tcd:B:x,1", "H\tef:Z:fine\tgh:H:0G", "@foreign:S\tQ\t10\t*",
+                 "@foreign:S\tQ\t*", "@foreign:E\te9\tA+\tB-\t0\t1\t0\t1\t*"]
 GOOD1 = ["S\tA\t*", "S\tB\tACGT", "H\tVN:Z:1.0"]
 GOOD2 = ["S\tA\t10\t*", "S\tB\t4\tACGT", "H\tVN:Z:2.0", "E\te\tA+\tB-\t0\t1\t0\t1\t*"]
 
@@ -76,7 +80,20 @@ def run_unknown_version(case, ctx):
     nfail = 0
     for l in case["lines"]:
         before = O.obs(g)
-        r = call(ctx, "add_line(str)", g.add_line, l)
+        if l.startswith("@foreign:"):
+            # a line object which is a line of another Gfa
+            other = gfapy.Gfa(vlevel=case["vlevel"])
+            other.add_line(l[9:])
+            other.process_line_queue()
+            objs = [x for x in other.lines if not x.virtual and x.record_type == l[9:10]]
+            if not objs:
+                continue
+            r = call(ctx, "add_line(Line of another Gfa)", g.add_line, objs[0])
+            ctx.count("foreign_line_objects_offered")
+            if r.ok:
+                return          # (accepted: the graphs are linked now, nothing more to say here)
+        else:
+            r = call(ctx, "add_line(str)", g.add_line, l)
         ctx.count("steps")
         if r.ok:
             accepted.append(l)
@@ -99,6 +116,8 @@ def run_unknown_version(case, ctx):
         ref = gfapy.Gfa(vlevel=case["vlevel"])
         rr = None
         for l in accepted:
+            if l.startswith("@foreign:"):
+                continue
             rr = call(ctx, "add_line(str)", ref.add_line, l)
             if not rr.ok:
                 break
